@@ -102,14 +102,18 @@ pub fn run(args: &[String]) {
   if fam == "all" || fam == "disasm" {
     // random streams of complete instructions (lengths from the harness's own table of first bytes,
     // checked against the specification by the validator), random start addresses incl. wrap-around
-    for _ in 0..(nrand / 10).max(50) {
-      let n = 1 + rng.below(24) as usize;
+    // ... and one listing longer than the address space (a whole 64 KiB image and a little more)
+    let streams = (nrand / 10).max(50);
+    for si in 0..streams {
+      let long = si == 0 && shard == 0;
+      let n = if long { 70000 } else { 1 + rng.below(24) as usize };
       let mut bytes: Vec<u8> = Vec::new();
       for _ in 0..n {
         let op = rng.byte();
         let (_, len, _) = crate::decoder::decode(&[op, 0, 0]);
         bytes.push(op);
         for _ in 1..len { bytes.push(rng.byte()); }
+        if long && bytes.len() >= 65540 { break; }
       }
       let addr = if rng.chance(1, 3) { 0xffff - rng.below(40) as u16 } else { rng.word() };
       let r = std::panic::catch_unwind(|| disassemble(addr, &bytes).iter().map(|i| format!("{}", i)).collect::<Vec<String>>());
@@ -122,6 +126,20 @@ pub fn run(args: &[String]) {
         }).collect(),
         Err(_) => vec![json!([0x1ffff, 0])],
       };
+      if long && ins.len() > 1 {
+        // one call of disassemble() on the whole listing, validated in pieces of 400 instructions: every contiguous piece
+        // of a tiling tiles its own bytes from its own first address
+        let mut cursor = 0usize;
+        for piece in ins.chunks(400) {
+          let nbytes: usize = piece.iter().map(|x| ju(&x[1]) as usize).sum();
+          let end = (cursor + nbytes).min(bytes.len());
+          writeln!(out, "{}", json!({"k": "dis", "addr": ju(&piece[0][0]), "bytes": bytes[cursor..end].to_vec(), "ins": piece.to_vec(), "of": bytes.len()})).unwrap();
+          cursor = end;
+        }
+        // (the pieces must account for every byte of the listing)
+        writeln!(out, "{}", json!({"k": "dis", "addr": 0, "bytes": bytes[cursor..].to_vec(), "ins": Vec::<Value>::new(), "of": bytes.len()})).unwrap();
+        continue;
+      }
       writeln!(out, "{}", json!({"k": "dis", "addr": addr, "bytes": bytes, "ins": ins})).unwrap();
     }
   }
